@@ -1007,6 +1007,10 @@ async fn http_request_handle<C: ServerContext>(
 // TODO should we encode more information here?  Service?  Instance?  Time up to
 // the hour?
 fn generate_request_id() -> String {
+    #[cfg(dropshot_verif)]
+    if let Some(id) = crate::verif_net::next_request_id() {
+        return id;
+    }
     format!("{}", Uuid::new_v4())
 }
 
